@@ -519,7 +519,9 @@ func genCase(layer string) func(t *rapid.T) discCase {
 				d[1] = rapid.SampledFrom([]byte{0x00, 0x20, 0x92, 0x95, 0x96, 0xff}).Draw(t, "code")
 			case 4:
 				off := l.Field("date").Off
-				spec.PutDate(d[off:], spec.Civil{Y: 2024, M: 11, D: 28})
+				// (the non-decimal nibble sits in every kind of date: an ordinary one, the all-zero 'no date', the year 0000, the last day
+				// of the last year)
+				copy(d[off:off+4], rapid.SampledFrom([][]byte{{0x20, 0x24, 0x11, 0x28}, {0x20, 0x24, 0x11, 0x28}, {0, 0, 0, 0}, {0x00, 0x00, 0x01, 0x01}, {0x00, 0x00, 0x12, 0x31}, {0x99, 0x99, 0x12, 0x31}}).Draw(t, "nibble.base"))
 				nib := rapid.IntRange(0, 7).Draw(t, "nibble")
 				v := byte(rapid.IntRange(10, 15).Draw(t, "nibble.value"))
 				if nib%2 == 0 {
